@@ -149,13 +149,23 @@ theorem isNone_list (l : List Tree) : (Tree.list l).isNone = false := rfl
 theorem isNone_leaf (t : Tok) : (Tree.leaf t).isNone = false := rfl
 theorem isSome_none : Tree.none.isSome = false := rfl
 
+theorem kindIsSeq_seq (l : List Tree) : ((Tree.seq l).kind == "#seq") = true := by
+  show ("#seq" == "#seq") = true; decide
+theorem kindIsSeq_list (l : List Tree) : ((Tree.list l).kind == "#seq") = false := by
+  show ("#list" == "#seq") = false; decide
+theorem kindIsSeq_none : (Tree.none.kind == "#seq") = false := by decide
+
 /-- the rewriting set that evaluates component selection on concrete groups -/
-macro "shape_simp" : tactic =>
-  `(tactic| simp only [nth_seq, nth_none, kids_list, kids_seq, kids_none, kind_seq, kind_list, kind_none, isNone_none, isNone_seq,
-      isNone_list, isNone_leaf, isSome_none, Tree.isSome,
+syntax "shape_simp" ("[" Lean.Parser.Tactic.simpLemma,* "]")? : tactic
+macro_rules
+  | `(tactic| shape_simp) => `(tactic| shape_simp [])
+  | `(tactic| shape_simp [$ts,*]) =>
+  `(tactic| simp only [nth_seq, nth_none, kids_list, kids_seq, kids_none, kindIsSeq_seq, kindIsSeq_list, kindIsSeq_none,
+      beq_self_eq_true, isNone_none, isNone_seq,
+      isNone_list, isNone_leaf, isSome_none, Tree.isSome, Gram.optList,
       List.getElem?_cons_zero, List.getElem?_cons_succ, List.getElem?_nil, Option.getD_some, Option.getD_none,
       Bool.not_true, Bool.not_false, Bool.false_eq_true, if_true, if_false, ite_true, ite_false, ↓reduceIte,
-      List.nil_append, List.append_nil, List.cons_append])
+      List.nil_append, List.append_nil, List.cons_append, $ts,*])
 
 /-! ## derived rules: `seqL`, `altL`, `toks` -/
 
@@ -215,29 +225,23 @@ theorem Der.ifEof_tok {k : Kind} {b : G} {Q : Post} (hb : Der Γ Δ Z F b Q) : D
 
 /-! ## separated lists -/
 
-theorem kindIsSeq_seq (l : List Tree) : ((Tree.seq l).kind == "#seq") = true := by
-  show ("#seq" == "#seq") = true; decide
-theorem kindIsSeq_list (l : List Tree) : ((Tree.list l).kind == "#seq") = false := by
-  show ("#list" == "#seq") = false; decide
-theorem kindIsSeq_none : (Tree.none.kind == "#seq") = false := by decide
-
 /-- value of `ifTok [Comma] (ref rec) (eps (list []))`, possibly skipped -/
-abbrev PSepTail (Z : Pos) : Post :=
-  POpt (POr (PSeqN [PLeaf Z, PList (PReal Z)]) (fun lo hi v => v = Tree.list [] ∧ lo.le hi = true))
+abbrev PSepTail (Z : Pos) (Q : Post) : Post :=
+  POpt (POr (PSeqN [PLeaf Z, PList Q]) (fun lo hi v => v = Tree.list [] ∧ lo.le hi = true))
 
-theorem sepTail_kids {lo hi : Pos} {tl : Tree} (h : PSepTail Z lo hi tl) :
-    PListL (PReal Z) lo hi (if tl.kind == "#seq" then (tl.nth 1).kids else []) := by
+theorem sepTail_kids {Q : Post} (hQ : Good Z Q) {lo hi : Pos} {tl : Tree} (h : PSepTail Z Q lo hi tl) :
+    PListL Q lo hi (if tl.kind == "#seq" then (tl.nth 1).kids else []) := by
   rcases h with ⟨rfl, h⟩ | ⟨_, rfl, c, _, m1, rfl, hc, l', _, m2, rfl, ⟨items, rfl, hitems⟩, rfl, hend⟩ | ⟨rfl, h⟩
   · simp only [kindIsSeq_none]; exact h
   · simp only [kindIsSeq_seq]
     shape_simp
-    exact (hitems.mono_lo good_real hc.item.le).mono_hi good_real hend
+    exact (hitems.mono_lo hQ hc.item.le).mono_hi hQ hend
   · simp only [kindIsSeq_list]; exact h
 
-theorem sepList_value {lo m1 m2 hi : Pos} {x tl : Tree} (hx : POpt (PReal Z) lo m1 x) (htl : PSepTail Z m1 m2 tl)
+theorem sepList_value {lo m1 m2 hi : Pos} {x tl : Tree} (hx : POpt (PReal Z) lo m1 x) (htl : PSepTail Z (PReal Z) m1 m2 tl)
     (hend : m2.le hi = true) :
     PListL (PReal Z) lo hi ((if x.isNone then [] else [x]) ++ (if tl.kind == "#seq" then (tl.nth 1).kids else [])) := by
-  have ht := (sepTail_kids htl).mono_hi good_real hend
+  have ht := (sepTail_kids good_real htl).mono_hi good_real hend
   rcases hx with ⟨rfl, hle⟩ | hx
   · shape_simp; exact ht.mono_lo good_real hle
   · simp only [hx.1.isNone]
